@@ -22,6 +22,12 @@ CHECKS = {
  "C16": ("relational runtime monitor on every phased result (substring at the reported position, frame, independent translation, exact copy => exact start, one result per input, inputs unchanged, Phase(nil) == Phase(longest ORF)) + naive every-ATG oracle for the ORF search + Go race detector over a schedule-perturbing, event-recording SeqBag/Sequence wrapper with an offline exactly-once / closed-stream checker and a goroutine-dump deadlock probe + enumeration of fault positions (too short sequence, k-th Translate, k-th Clone)",
          "Held on the executions observed: relations on every result of thousands of generated sets (1..3 references, 3..40 flanked exact / mutated / reverse-strand copies, translate/reverse/cut-end/3 codes) with 1 and 2..8 workers; longest-ORF answers equal to the every-ATG oracle on sequences with overlapping frames; identical result sets, every sequence exactly once and a closed stream for workers 1..32 x GOMAXPROCS 1..16 x perturbation plans with zero race reports; every enumerated fault position delivers an error and closes the stream.",
          "Trusted: lib/ref/gencode.go (NCBI tables), the Go race detector (only races on the interleavings driven), the deadlock classifier over runtime.Stack. With cut-end only the start of the trimmed sequence is decided. Sequences without any positive-scoring anchored alignment (pure junk) are outside the quantifier.", "1/C16"),
+ "C05": ("independent reference model (NCBI tables 1/2/5 typed twice, the statement's codon rule) compared residue by residue with every translation entry point, the complete codon space enumerated; relation checks for CodonAlign and TranslateByReference (reference-model runtime monitor)",
+         "Held on the executions observed: all 3 x 48^3 (code, codon) combinations over 48 symbols (exhaustive, both tiers) through Sequence.Translate / GenAllPossibleCodons alone and embedded in sequences through Sequence, SeqBag and Alignment translation in frames 0,1,2,-1; random sequences and alignments give floor((L-frame)/3) residues with an error exactly when that is 0; CodonAlign and TranslateByReference relations on generated cases. Exhaustive for the codon sub-space, exploration otherwise.",
+         "Trusted: mon/c05/ref.go and lib/ref/gencode.go (two typed copies of the NCBI tables, cross-checked on the whole space). Lenient: non nucleotide symbols may give an error or X; GenAllPossibleCodons on a gapped codon; Alignment.Translate(-1) raggedness is the recorded C01 finding; for gapped alignments TranslateByReference is only constrained on the reference row (as stated).", "1/C05"),
+ "C13": ("per-call differential against a list-of-rows reference (first-occurrence scan for Deduplicate; column multiset vs {emitted column j : weight j} for Compress) + metamorphic relations (idempotence, two-step dedup, clone before/after, add-after) + full access-path read-back and invariant hook + exhaustive small sub-spaces (reference-model runtime monitor)",
+         "Held on the executions observed: groups partition the names with the kept row first, kept rows an untouched in-order subsequence, idempotent; compressed patterns pairwise distinct with exact multiplicities summing to L, additive statistics preserved, all access paths consistent; random containers of 6 kinds, operation chains, and exhaustively every 3x2 container over {A,N,X,n,x,-} and every column sequence up to length 5 (6) over small row sets.",
+         "Trusted: mon/c13/ref.go, IterateAll as the read path. Lenient (one reading must explain a whole result): lower-case n/x as wildcard, wildcard of an unknown alphabet, order of groups / followers / emitted patterns.", "1/C13"),
 }
 NOT_YET = {}
 def main():
